@@ -336,6 +336,53 @@ def runOds : OdsMode → List Ev → Res (Txt × List Ev)
 /-- text of a string cell from the events that follow its `Start table:table-cell` event -/
 def odsCellText (evs : List Ev) : Res (Txt × List Ev) := runOds (.normal [] true) evs
 
+/-! ### ods `get_datatype`, attribute loop (the part that decides where a string cell's value comes from) -/
+
+/-- outcome of the attribute loop as far as text is concerned -/
+inductive OdsAttrVal where
+  /-- `office:string-value` was taken: the cell is this string, its content is display text and is skipped -/
+  | strAttr (v : Txt)
+  /-- `office:value-type="string"` and no value attribute: the element content defines the value -/
+  | content
+  /-- any other kind of value (float, date, time, boolean) or no value at all -/
+  | other
+  deriving DecidableEq, Repr
+
+/-- the `for a in atts` loop: state = (`is_string`, the value once set). Attributes are visited in document
+    order; the first value attribute wins; `office:value-type` is looked at only while no value is set, and
+    `office:string-value` does not depend on it. -/
+def odsAttrLoop : List (String × Txt) → Bool → Option OdsAttrVal → Bool × Option OdsAttrVal
+  | [], isStr, val => (isStr, val)
+  | (k, v) :: r, isStr, val =>
+    match val with
+    | some _ => odsAttrLoop r isStr val
+    | none =>
+      if k = "office:value" then odsAttrLoop r isStr (some .other)
+      else if k = "office:string-value" then odsAttrLoop r isStr (some (.strAttr v))
+      else if k = "office:date-value" ∨ k = "office:time-value" ∨ k = "office:boolean-value" then
+        odsAttrLoop r isStr (some .other)
+      else if k = "office:value-type" then odsAttrLoop r (v = [115, 116, 114, 105, 110, 103]) none
+      else odsAttrLoop r isStr none
+
+def odsAttrs (attrs : List (String × Txt)) : OdsAttrVal :=
+  match odsAttrLoop attrs false none with
+  | (_, some v) => v
+  | (true, none) => .content
+  | (false, none) => .other
+
+/-- text of a cell from its start-tag attributes and the events that follow the start tag
+    (`none` = not a string cell) -/
+def odsCellValue (attrs : List (String × Txt)) (evs : List Ev) : Res (Option Txt) :=
+  match odsAttrs attrs with
+  | .strAttr v => .ok (some v)
+  | .content =>
+    match odsCellText evs with
+    | .ok (s, _) => .ok (some s)
+    | .err e => .err e
+    | .panic e => .panic e
+    | .outOfFuel => .outOfFuel
+  | .other => .ok none
+
 /-! ### xlsb `wide_str` -/
 
 def u32le (b0 b1 b2 b3 : UInt8) : Nat :=
